@@ -633,6 +633,39 @@ Proof.
   - destruct (adds t uops n); [reflexivity|]. now apply pars_spec.
 Qed.
 
+(* 11. every member has a source *)
+Lemma ops_name_targets ops k : ops_name t ops k -> In k (flat_map (op_all_targets t) ops).
+Proof. intros (li & Hin & Hk). apply in_flat_map. exists (OAdd li). split; [exact Hin|exact Hk]. Qed.
+Lemma sourced_in_sources k :
+  sourced i mops sops dops xl sel k -> In k (sources_gen mops sops statn i uops).
+Proof.
+  unfold sourced, sources_gen. cbv zeta. intros H. rewrite !in_app_iff.
+  destruct H as [H|[H|[[Hv H]|[[He H]|[H|[H|H]]]]]].
+  - left. destruct (proj1 (all_contents_names _ _ E_sel k) H) as (p & Hp & Hn). apply in_flat_map. eauto.
+  - right; left. exact H.
+  - right; right; left. rewrite Hv. destruct H as (d & Hd & Hk). apply in_map_iff in Hd as (p & <- & Hp).
+    apply in_flat_map. exists p. split; [exact Hp|exact Hk].
+  - right; right; right; left. rewrite He. rewrite statn_eq. apply in_or_app. destruct H as [(li & Hin & Hk)|H]; [left|now right].
+    unfold add_names. apply in_flat_map. exists (OAdd li). split; [exact Hin|].
+    rewrite forallb_forall in dops_plain. specialize (dops_plain _ Hin). cbn in dops_plain. apply negb_true_iff in dops_plain.
+    unfold op_targets in Hk. rewrite dops_plain in Hk. exact Hk.
+  - right; right; right; right; left. now apply ops_name_targets.
+  - right; right; right; right; right; left. now apply ops_name_targets.
+  - right; right; right; right; right; right. now apply ops_name_targets.
+Qed.
+Lemma c_sourced : s_sourced_gen (sources_gen mops sops statn i uops) ms = true.
+Proof.
+  unfold s_sourced_gen. cbv zeta. apply forallb_forall. intros x Hx.
+  unfold ms in Hx. apply in_map_iff in Hx as (x0 & <- & Hx0). rewrite key_tar.
+  pose proof (finalize_mem _ _ Hx0) as Hm.
+  destruct (mf_sourced i mops sops dops xl mops_adds sops_adds dops_adds sel all m1 m2 m3 m4 m5 m7 m9
+              E1 E2 E3 E4 E5 E7 E9 G9 G7 (m_name x0) Hm) as [H|[H|(k0 & H & Hin)]].
+  - apply sourced_in_sources, memb_In in H. now rewrite H.
+  - destruct (memb (m_name x0) _); [reflexivity|]. rewrite H. now rewrite feq_refl.
+  - destruct (memb (m_name x0) _); [reflexivity|]. destruct (feq (m_name x0) root_path); [reflexivity|].
+    apply memb_In. apply in_flat_map. exists k0. split; [now apply sourced_in_sources|exact Hin].
+Qed.
+
 (* everything together *)
 Lemma c_all :
   s_relative ms = true /\ s_unique ms = true /\ s_parents [] (map key ms) = true /\ s_hardlinks t [] ms = true
@@ -647,13 +680,14 @@ Lemma c_all :
         (if adds t uops (key x) then true else memb (key x) stdn) = true)
   /\ s_omit t pars ms uops = true /\ s_vdb_out i uops pars ms = true
   /\ (i_emptydev i = true ->
-        forallb (fun n => if has ms n then (if adds t uops n then true else memb n pars) else true) statn = true).
+        forallb (fun n => if has ms n then (if adds t uops n then true else memb n pars) else true) statn = true)
+  /\ s_sourced_gen (sources_gen mops sops statn i uops) ms = true.
 Proof.
   repeat split.
   - exact c_relative. - exact c_unique. - exact c_parents. - exact c_hardlinks.
   - unfold ms. rewrite map_key_tar. apply list_beq_feq_refl.
   - exact c_pkgfiles. - exact c_vdb_in. - exact c_std_dirs. - exact c_static_in. - exact c_user.
-  - exact c_unselected_member. - exact c_omit. - exact c_vdb_out. - exact c_static_out.
+  - exact c_unselected_member. - exact c_omit. - exact c_vdb_out. - exact c_static_out. - exact c_sourced.
 Qed.
 End Main.
 
@@ -681,7 +715,7 @@ Proof.
      (op_names stddir_ops) eq_refl k_stddir_plain k_devsetup_plain
      k_magic_avoid_vdb k_stddir_avoid_vdb k_magic_avoid_dev k_stddir_avoid_dev) as ALL.
   clear - ALL.
-  destruct ALL as (A1 & A2 & A3 & A4 & A5 & A6 & A7 & A8 & A9 & A10 & A11 & A12 & A13 & A14).
+  destruct ALL as (A1 & A2 & A3 & A4 & A5 & A6 & A7 & A8 & A9 & A10 & A11 & A12 & A13 & A14 & A15).
   unfold spec_ok. cbv zeta. unfold user_ops.
   rewrite A1, A2, A3, A4, A5, A6, A7. cbn [andb].
   unfold s_std_dirs. rewrite A8. cbn [andb].
@@ -698,7 +732,10 @@ Proof.
     - destruct (memb (key x) _) eqn:M1; [|reflexivity]. destruct (memb (key x) (flat_map contents_names (selected _))) eqn:M2; [reflexivity|].
       cbn [negb]. unfold std_named. apply (A11 x Hx); auto. }
   rewrite B11, A12, A13. cbn [andb].
-  unfold s_static_out. destruct (i_emptydev (c_in c)); [now apply A14|reflexivity].
+  assert (B14 : s_static_out (c_in c) (script_ops (i_script (c_in c))) (member_parents (map tar_member (finalize (add_missing_dirs m9))))
+                  (map tar_member (finalize (add_missing_dirs m9))) = true).
+  { unfold s_static_out. destruct (i_emptydev (c_in c)); [now apply A14|reflexivity]. }
+  rewrite B14. cbn [andb]. exact A15.
 Qed.
 
 (* the hypotheses of the theorems are satisfied by a concrete non-trivial input *)
